@@ -286,7 +286,9 @@ def main(ctx, prop):
                                 failing.append(dict(what='%s: cut after %d commands: %s' % (fam, rr['k'], why),
                                                     replay=CC.replay_of(prop, c, dict(cut_after=rr['k'], state='\n'.join(rr['state']),
                                                                                      resumed_script=rr['run']['out'], third_compare=rr['third'])),
-                                                    finding=None, key='resume'))
+                                                    finding=('F-C10-2' if not ios and rr['rc'] == 0 and not rr['verdict'][0] and rr['verdict'][2] in (0, 3)
+                                                             and CC.classify(c, ios, ['spare_equal_generated_group', 'equal_groups_on_device']) else None),
+                                                    key='resume'))
                                 break
             allcases += cases
         extra = {}
